@@ -49,8 +49,12 @@ CHECKS["C04"] = _core("C04", "seeded programs with try/catch/finally nests and f
 
 CHECKS["C04"]["text"] += (" In addition the hook traces of these executions are validated against the VM specification "
                           "spec/KotoVm.tla (CaughtIsInnermost, CaughtWithinTry, NoDuplicateTry, BuildersRestoredAtCatch, "
-                          "NoMonotoneGrowth, Balanced, QuiescentIsClean, NoInternalFault evaluated at every event).")
-CHECKS["C04"]["technique"] = "TLA+ abstract machine as oracle (spec->impl replay) + trace validation of VM hook events against KotoVm.tla"
+                          "NoMonotoneGrowth, Balanced, QuiescentIsClean, NoInternalFault evaluated at every event). "
+                          "Design level: MC_KotoVm.tla, an operational model of vm.rs that produces events in the order the hooks "
+                          "emit them, is model-checked against the same rules (accepted in every reachable state); with each "
+                          "historical bug switched on (stale catch point, builders not restored, register leak, register growth) "
+                          "TLC must reject it by the rule that names it.")
+CHECKS["C04"]["technique"] = "TLA+ abstract machine as oracle (spec->impl replay) + trace validation of VM hook events against KotoVm.tla + TLC model checking of MC_KotoVm.tla"
 
 CHECKS["C05"] = dict(
     category="model_checking",
@@ -104,11 +108,14 @@ CHECKS["C08"] = dict(
          "adaptor functor, @display x try depth 0..2) is run under a limit on a real instance: timeout error within "
          "2*limit+1s, no catch block observes it, the instance stays usable and clean. Each run's hook trace is validated "
          "against KotoVm.tla: TimeoutNeverCaught and TimeoutStaysTimeout (a timeout from a nested execution is never "
-         "downgraded), Balanced, QuiescentIsClean.",
+         "downgraded), Balanced, QuiescentIsClean. Design level: MC_KotoVm.tla (operational model of vm.rs against the same "
+         "rules) is model-checked; the variants in which a nested timeout can be caught or comes back as an ordinary error must be "
+         "rejected, and the liveness property TimeoutEventuallyFires holds under weak fairness of the clock and the deadline "
+         "poll, and is violated in the variant where nested executions do not poll the deadline.",
     design_ref="DESIGN.md §5 C08, Appendix A",
     note="Real time is outside TLA+ (harness assertion with slack); long executions are recorded as head+tail with a Gap "
          "event, for which the specification abstains on what it cannot know.",
-    technique="enumerated runaway shapes on the implementation + trace validation against KotoVm.tla",
+    technique="enumerated runaway shapes on the implementation + trace validation against KotoVm.tla + TLC model checking (safety and liveness) of MC_KotoVm.tla",
     engine="kotovm")
 CHECKS["C10"] = dict(
     category="model_checking",
